@@ -188,10 +188,17 @@ class PathConditions:
                 return f
         return None
 
-    def truth(self, node: int | ast.AST, pred) -> Fact | None:
-        """First fact at node for which pred(expr, polarity) holds."""
+    def truth(self, node: int | ast.AST, pred, expanded: bool = False) -> Fact | None:
+        """First fact at node for which pred(expr, polarity) holds; with `expanded`, the expression is given with its
+        temporaries resolved at the place of the test (`first = bitorder[0]; first in S` is `bitorder[0] in S`)."""
         for f in self.facts_at(node):
-            if pred(f.expr, f.pol):
+            e = f.expr
+            if expanded:
+                try:
+                    e = self.flow.expand(f.expr, f.test_node)
+                except Exception:
+                    e = f.expr
+            if pred(e, f.pol):
                 return f
         return None
 
